@@ -5,7 +5,7 @@ from mpmath import mpf
 
 from . import expr as X
 from . import refsem, oracle, schemeref
-from .runner import Violation
+from .runner import Violation, Inconclusive
 
 
 def expected_rhs(model, ev):
@@ -54,6 +54,19 @@ def compare_slots(prop, mod, fname, index_kind, expected, pt, dt=None, missing=N
     except AssertionError as ex:
         raise Violation(f"{prop}:{mod.kind}:{fname}:memory", dict(ctx, error=str(ex), point=pt))
     except Exception as ex:
+        if isinstance(ex, (ZeroDivisionError, OverflowError)) and ctx.get("text"):
+            # Python-scalar arithmetic on constants raises where array arithmetic gives inf / nan:
+            # a constant sub-expression that is undefined (0**-2) in a branch that is NOT selected.
+            # Such a model has an expression that is defined nowhere: outside the property's domain.
+            try:
+                from vlib import odeparse
+
+                if refsem.strictly_undefined(odeparse.parse_model(ctx["text"]), pt, missing):
+                    raise Inconclusive("undefined-constant-in-unselected-branch")
+            except Inconclusive:
+                raise
+            except Exception:
+                pass
         raise Violation(f"{prop}:{mod.kind}:{fname}:call-{type(ex).__name__}", dict(ctx, error=str(ex)[:800], point=pt, code=mod.code))
     idx = mod.index(index_kind)
     n = 0
